@@ -362,7 +362,12 @@ class ForiLoopPlugin(PrimitiveLeafPlugin):
     ) -> Any:
         leaves, treedef = tree_util.tree_flatten(init_val)
         leaves = [
-            _canon_int(leaf) if isinstance(leaf, (int, np.integer)) else leaf
+            (
+                _canon_int(leaf)
+                # bool is an int subclass: a Python bool carry must stay boolean
+                if isinstance(leaf, (int, np.integer)) and not isinstance(leaf, bool)
+                else leaf
+            )
             for leaf in leaves
         ]
 
